@@ -107,16 +107,21 @@ def draw_pvs(rng, n):
     out = []
     for _ in range(n):
         d = rng.choice([2, 3, 3, 4])
-        split = [rng.choice(["none", "none", "one", "chain", "multi", "late"]) for _ in range(d)]
+        split = [rng.choice(["none", "none", "one", "chain", "chain2", "chain2", "multi", "late"]) for _ in range(d)]
         xt = rng.choice(["Real", "Real", "aR", "aaR", "aI"])
         attr = rng.choice(["value", "start", "start", "min", "max", "nominal", "fixed", "unit"])
         sites = [("decl", 1)] + [("comp", i) for i in range(2, d + 1)] + \
-                [("ext", i + 1) for i in range(d) if split[i] in ("one", "chain", "multi")]
+                [("ext", i + 1) for i in range(d) if split[i] in ("one", "chain", "multi", "chain2")] + \
+                [("extb", i + 1) for i in range(d) if split[i] == "chain2"]
         if xt != "Real" and attr != "value":
             sites.append(("type", 0))
-        rank = {"type": lambda i: 0, "decl": lambda i: 1, "ext": lambda i: 3 * i, "comp": lambda i: 3 * i - 1}
+        rank = {"type": lambda i: 0, "decl": lambda i: 1, "ext": lambda i: 4 * i, "extb": lambda i: 4 * i - 1, "comp": lambda i: 4 * i - 2}
         k = rng.choice([1, 2, 2, 3, 3, 4])
-        chosen = sorted(rng.sample(sites, min(k, len(sites))), key=lambda s: -rank[s[0]](s[1]))
+        chosen = set(rng.sample(sites, min(k, len(sites))))
+        for i in range(d):      # both clauses of a two-level extends chain modify the target
+            if split[i] == "chain2" and rng.random() < 0.8:
+                chosen |= {("ext", i + 1), ("extb", i + 1)}
+        chosen = sorted(chosen, key=lambda s: -rank[s[0]](s[1]))
         mods = [{"k": s[0], "i": s[1], "e": "lit" if (attr in ("fixed", "unit") or s[0] == "type") else rng.choice(["lit", "ref"])}
                 for s in chosen]
         out.append({"depth": d, "fan": rng.choice([1, 2]), "same": rng.random() < 0.4, "wrap": rng.choice([0, 0, 1, 2]),
@@ -144,7 +149,7 @@ def run(ctx):
     need = ["spelling-mixed", "spelling-dotted", "spelling-nested", "depth1", "depth2", "xtype-aR", "xtype-aaR", "xpre-parameter",
             "attr-value", "attr-start", "attr-min", "attr-max", "attr-nominal", "attr-fixed", "attr-unit",
             "site-type0-lit", "site-decl1-lit", "site-decl1-ref", "site-ext1-lit", "site-ext1-ref", "site-comp2-lit",
-            "site-comp2-ref", "site-ext2-lit", "site-ext2-ref"]
+            "site-comp2-ref", "site-ext2-lit", "site-ext2-ref", "split1-chain2", "split2-chain2", "site-extb1-lit", "site-extb2-ref"]
     if thorough:
         need += ["depth3", "same", "site-comp3-ref", "site-ext3-lit"]
     missing = [t for t in need if not cover.get(t)]
